@@ -1,6 +1,10 @@
 use crate::engine::Ctx;
 pub mod c01;
 pub mod c02;
+pub mod c03;
+pub mod c04;
+pub mod c05;
+pub mod c06;
 pub mod c07;
 pub mod c08;
 pub mod c11;
@@ -10,6 +14,10 @@ pub mod sm2util;
 pub const ALL: &[(&str, fn(&Ctx))] = &[
     ("C01", c01::run),
     ("C02", c02::run),
+    ("C03", c03::run),
+    ("C04", c04::run),
+    ("C05", c05::run),
+    ("C06", c06::run),
     ("C07", c07::run),
     ("C08", c08::run),
     ("C11", c11::run),
